@@ -76,19 +76,36 @@ RULE = ("31 moduli: 2,3,4,6,7,11,12 (exhaustive: every operand pair in [0,M)^2 f
         "operator and assigning forms, the constants ZERO/ONE as operands, random expressions of 3..8 operations) whose "
         "result is printed as a value or compared with == against a fresh value that is congruent / off by one / non-canonical; "
         "998244353 and 1000000007 also through the aliases Mint998/Mint107; read_vec / tuple reads of several values; "
+        "DELIVERY of the text (behaviour inherited from rlib_io through the i64 Readable / u32 Writable impls): on every modulus "
+        "the read, read_vec and tuple-read cases again through a source that hands the text out in pieces - byte by byte, in "
+        "chunks of 2, 3 and 2/3 alternating, one cut before the token / after the sign / at every digit position (all positions "
+        "for numerals of up to 8 bytes, a sample otherwise) / before the delimiter, two and three consecutive cuts inside one "
+        "token, cuts followed by byte-by-byte delivery, Interrupted errors between the pieces (also two in a row), the pieces as "
+        "std::io::Chain of Cursors, tab / CR LF / form feed / runs of mixed blanks as delimiters, end of input right after the "
+        "last digit; numerals: i64::MIN/MAX, 2^31, 2^32+1, -2^31-1, -1, M, -M-1, 0, the boundary classes of the constructor "
+        "arguments, zero-padded numerals (-0, 007, padded extremes, 22..30 zeros: longer than any i64 numeral); the token at the "
+        "64 KiB mark with the pieces ending around and inside it; the other values of the text and is_eof() afterwards are "
+        "checked in the executor; all of these must give the observation of the one-piece read (same ORead term); the value "
+        "written when the Writer's buffer holds 65536-d bytes (d around the length of the numeral) and into a sink that accepts "
+        "1, 2, scheduled bytes per call, returns Interrupted, or is only dropped (same ONew term); "
         "inverse and quotient on a second thread next to other moduli; every case in the debug and the release profile; "
         "non-trivial = the integer result of the operation is not already the canonical representative (a reduction, a lift "
         "of a negative value or a conditional subtraction has to happen), for an expression: at least two operations")
 TRUSTED = ["executor harness/crates/c06 (instantiates Modular<M> for 31 moduli + the aliases Mint998/Mint107, calls "
            "new/read/read_vec/tuple read/neg/inv/pow/+,-,*,/ and the assigning forms/==/ZERO/ONE singly and in multi-step "
-           "expressions, prints inner() and the byte-exact (hex) Display, Debug, Writable output; its internal checks - "
+           "expressions, prints inner() and the byte-exact (hex) Display, Debug, Writable output; its scheduled sources and sinks "
+           "(`Sched`, `Pieces`, `Intr`, `ShortSink`: short reads / short writes / Interrupted errors, never an empty piece before the "
+           "end of the text) and the text layouts of the delivery ops, which checks/c06.py mirrors (`layout`); its internal checks - "
+           "the remaining values of a scheduled read and is_eof() after it, the frame around a value written far into the buffer "
+           "or into a short-write sink, Show of a Vec / array / tuple holding the value against the same containers holding the text, "
            "formatter flags, to_string, Writable of Vec/tuples containing the value against the same for inner(), "
            "ZERO/ONE against new(0)/new(1), value == new(inner()) - replace the Display text by a failure token)",
            "checks/c06.py (case generator, Coq term printer; for a multi-step expression the printer evaluates the "
            "sub-expressions with Python integers and hands Coq the LAST operation on their canonical residues)"]
 ASSUMPTIONS = ["Rust semantics assumed by the model: `as` casts keep the low bits, + - * panic on overflow in debug builds and wrap "
                "in release builds (checked operations returning None), / and % on signed integers are Z.quot and Z.rem",
-               "Readable is modelled as new applied to the parsed i64 (the decimal parser is property C08); Display/Debug delegate to "
+               "Readable is modelled as new applied to the parsed i64 (the decimal parser is property C08; a Read source may return "
+               "any non-empty prefix of what is left, or Interrupted, and the value read must not depend on it); Display/Debug delegate to "
                "u32's formatter, modelled by the same digit loop as Writable for u32",
                "only the 31 listed moduli are executed; the theorems quantify over every 2 <= M < 2^31",
                "Show::show (debug pretty-printer) is outside the Coq model: it is compared with a Python transcription of its "
@@ -203,6 +220,16 @@ def norm(c):
         return ("read", a[1 + a[0]])
     if op == "readt":                 # (Modular, i64, Modular) = a[1:4], component a[0]
         return ("read", a[1 + a[0]])
+    # ---- the same reads / writes with the text DELIVERED in pieces (a[0] is the schedule, tokens are strings that may be
+    # zero-padded): the observation must be that of the one-piece delivery, so they share ORead / ONew
+    if op in ("reads", "readfars"):
+        return ("read", int(a[1]))
+    if op in ("readvs", "readts"):    # [sched, k, tok...]; readts: (Modular, i64, Modular), k in {0, 2}
+        return ("read", int(a[2 + int(a[1])]))
+    if op == "writefar":              # new(a[0]) written 65536-a[1] bytes into the Writer's buffer
+        return ("new", int(a[0]))
+    if op == "writes":                # new(a[1]) written into a sink that accepts the bytes in pieces
+        return ("new", int(a[1]))
     if op in ("neg", "inv", "tinv"):  # tinv/tdiv: computed on a second thread
         return (op[-3:], a[0])
     if op == "pow":
@@ -549,6 +576,156 @@ def rpn_random(rng, m, pool, n_ops_max):
     return case(m, "rpn", *toks)
 
 
+# ---- delivery schedules (executor `Sched`): "<head>/<cycle>[:flags]"
+STYLES = {0: (" ", " ", "\n"), 1: ("\t", "\t", "\t"), 2: ("\r\n", "\r\n", "\r\n"), 3: ("\x0c", "\x0c", "\x0c"),
+          4: ("", "  \n\t ", " \n\n")}
+SCHED_OPS = ("reads", "readfars", "readvs", "readts", "writes")
+
+
+def sched_str(head=(), cycle=(), flags=""):
+    return ".".join(str(x) for x in head) + "/" + ".".join(str(x) for x in cycle) + (":" + flags if flags else "")
+
+
+def cuts_to_head(cuts):
+    """piece lengths for piece boundaries at the given text offsets (the rest arrives in one piece)"""
+    out, last = [], 0
+    for o in sorted(set(x for x in cuts if x > 0)):
+        out.append(o - last)
+        last = o
+    return out
+
+
+def layout(toks, style=0, eof=False):
+    """the text the executor builds for the tokens and the (start, end) offsets of every token in it"""
+    lead, sep, trail = STYLES[style]
+    text, spans = lead, []
+    for i, t in enumerate(toks):
+        if i:
+            text += sep
+        spans.append((len(text), len(text) + len(t)))
+        text += t
+    return text + ("" if eof else trail), spans
+
+
+def zpad(v, k):
+    return ("-" if v < 0 else "") + "0" * k + str(abs(v))
+
+
+def read_tokens(rng, m, n):
+    """numerals for the delivery cases: i64 extremes, values >= 2^31, negative values, the boundary classes of
+    ctor_args, zero-padded numerals (also longer than any i64 numeral: 25..40 bytes)"""
+    ca = ctor_args(rng, m, 1)
+    vals = [I64_MIN, I64_MAX, 1 << 31, (1 << 32) + 1, -(1 << 31) - 1, -1, m, -m - 1, 0]
+    vals += [rng.choice(ca) for _ in range(n)]
+    toks = [str(v) for v in vals]
+    toks += ["-0", "007", zpad(rng.choice(ca), rng.range(1, 3)), zpad(rng.choice(ca), rng.range(22, 30)),
+             zpad(rng.choice([I64_MIN, I64_MAX]), rng.range(1, 12)), "0" * rng.range(2, 30), zpad(-rng.range(1, 2 * m), 21)]
+    return toks
+
+
+def random_flags(rng, sink=False):
+    f = ""
+    if rng.chance(1, 4):
+        f += "i"
+    if sink:
+        return f + ("d" if rng.chance(1, 3) else "")
+    if rng.chance(1, 5):
+        f += "h"
+    if rng.chance(1, 6):
+        f += "e"
+    return f
+
+
+def token_schedules(rng, span, n_single, n_double, every):
+    """(head, cycle) pairs that split the token at text offsets span = (a, b): byte by byte, chunks of 2 and 3, one
+    cut at the chosen positions (before the token, after the sign, inside the digits, before the delimiter), two and
+    three consecutive cuts inside the token"""
+    a, b = span
+    L = b - a
+    out = [((), (1,)), ((), (2,)), ((), (3,)), ((), (2, 3))]
+    pos = list(range(0, L + 1))
+    single = pos if every else sorted(set([0, 1, 2, L - 1, L] + [rng.below(L + 1) for _ in range(n_single)]) & set(pos))
+    for j in single:
+        out.append((cuts_to_head([a + j]), ()))
+    inner = list(range(1, L))      # cuts strictly inside the token
+    pairs = [(j, k) for j in inner for k in inner if j < k]
+    if not every and len(pairs) > n_double:
+        near = [(j, j + 1) for j in inner if j + 1 < L]
+        pairs = [rng.choice(near) for _ in range(n_double // 2)] + [rng.choice(pairs) for _ in range(n_double - n_double // 2)]
+        if L > 2:
+            pairs.append((1, 2))   # after the sign / first digit, and again one byte later
+    for (j, k) in pairs:
+        out.append((cuts_to_head([a + j, a + k]), ()))
+        if rng.chance(1, 3):
+            out.append((cuts_to_head([a, a + j, a + k, b]), ()))     # also apart from both neighbours
+    if L > 3:
+        j = rng.range(1, L - 3)
+        out.append((cuts_to_head([a + j, a + j + 1, a + j + 2]), ()))
+        out.append((cuts_to_head([a + j, a + j + 1]), (1,)))          # two cuts, then byte by byte
+    return out
+
+
+def delivery_cases(rng, m, n_tok, thorough, far=True):
+    """read / read_vec / tuple read / write of the same values with the text delivered (accepted) in pieces"""
+    cases = []
+    toks = read_tokens(rng, m, n_tok)
+    if not thorough:
+        # the fixed numerals always; of the rest a sample
+        fixed, rest = toks[:4], toks[4:]
+        rng.shuffle(rest)
+        toks = fixed + rest[:n_tok + 3]
+    for t in toks:
+        style = rng.choice([0, 0, 0, 1, 2, 3, 4])
+        eof = rng.chance(1, 6)
+        _text, spans = layout([t], style, eof)
+        scheds = token_schedules(rng, spans[0], 2 if not thorough else 6, 3 if not thorough else 12, every=(len(t) <= 8))
+        if not thorough and len(scheds) > 12:
+            head4, rest = scheds[:4], scheds[4:]
+            rng.shuffle(rest)
+            scheds = head4 + rest[:8]
+        for (h, c) in scheds:
+            fl = random_flags(rng).replace("e", "") + ("e" if eof else "") + ("w%d" % style if style else "")
+            cases.append(case(m, "reads", sched_str(h, c, fl), t))
+    # several values: a cut in the token before the printed one desynchronises the stream
+    for _ in range(2 if not thorough else 12):
+        vs = [rng.choice(toks) for _ in range(rng.range(2, 4))]
+        k = rng.below(len(vs))
+        style = rng.choice([0, 0, 1, 2, 4])
+        _text, spans = layout(vs, style)
+        for (h, c) in [((), (1,)), ((), (2, 3))] + [rng.choice(token_schedules(rng, spans[j], 1, 2, False)[4:]) for j in range(len(vs))]:
+            cases.append(case(m, "readvs", sched_str(h, c, random_flags(rng).replace("e", "") + ("w%d" % style if style else "")), k, *vs))
+        tv = [rng.choice(toks), str(rng.range(-99, 99) if rng.chance(1, 2) else rng.choice([I64_MIN, I64_MAX])), rng.choice(toks)]
+        k = rng.choice([0, 2])
+        _text, spans = layout(tv, 0)
+        for (h, c) in [((), (1,)), ((), (3,))] + [rng.choice(token_schedules(rng, spans[j], 1, 2, False)[4:]) for j in range(3)]:
+            cases.append(case(m, "readts", sched_str(h, c, random_flags(rng).replace("e", "")), k, *tv))
+    # the token at the 64 KiB mark of the input, the pieces ending around and inside it
+    if far:
+        for t in [rng.choice(toks) for _ in range(1 if not thorough else 6)] + ([str(I64_MIN)] if thorough or rng.chance(1, 2) else []):
+            L = len(t)
+            d = rng.choice(sorted({1, 2, L // 2, L - 1, L, L + 1} - {0}))
+            pad = 65536 - d
+            picks = [([pad + 1, 1], ()), ([pad - 3, 3 + max(1, L // 2), 1], ()), ([pad], (2,)), ((), (4099,)),
+                     ([pad + rng.range(1, max(1, L - 1))], (1,)), ([65536, 1, 1], ())]
+            if not thorough:
+                rng.shuffle(picks)
+                picks = picks[:3]
+            for (h, c) in picks:
+                cases.append(case(m, "readfars", sched_str(h, c, "i" if rng.chance(1, 4) else ""), t, d))
+    # the value written next to the end of the Writer's buffer, and into a sink that takes short writes
+    wv = [m - 1, 0, 10000 % m, 99999 % m, 100000000 % m, 1000000000 % m, rng.below(m), rng.below(m), -1 - rng.below(m)]
+    if not thorough:
+        rng.shuffle(wv)
+        wv = wv[:3]
+    for v in wv:
+        L = len(str(v % m))
+        for d in (sorted({0, 1, L - 1, L, L + 1, L + 2}) if thorough else [rng.choice([0, 1, L - 1]), rng.choice([L, L + 1])]):
+            cases.append(case(m, "writefar", v, d))
+        for (h, c) in [((), (1,)), (cuts_to_head([2 + rng.below(L + 1)]), ()), (cuts_to_head([1, 3]), (2,))]:
+            cases.append(case(m, "writes", sched_str(h, c, random_flags(rng, sink=True)), v))
+    return cases
+
+
 def small_cases(rng, m, thorough, full):
     cases = []
     for a in range(m):
@@ -599,6 +776,7 @@ def small_cases(rng, m, thorough, full):
         cases.append(case(m, "readt", rng.choice([0, 2]), rng.range(-2 * m, 2 * m), rng.range(-99, 99), rng.range(-2 * m, 2 * m)))
         cases.append(case(m, "tinv", rng.below(m)))
         cases.append(case(m, "tdiv", rng.below(m), rng.below(m)))
+    cases += delivery_cases(rng, m, 1 if not thorough else 6, thorough, far=thorough)
     return cases
 
 
@@ -701,11 +879,13 @@ def big_cases(rng, m, nr, thorough, n_width, n_invpairs, n_rpn, cube):
         cases.append(case(m, "readt", rng.choice([0, 2]), rng.choice(ca), rng.choice(ca), rng.choice(ca)))
         cases.append(case(m, "tinv", rng.choice([rng.below(1024), rng.below(m), rng.choice(bnd)])))
         cases.append(case(m, "tdiv", rng.choice(rnd), rng.choice([rng.below(1024), rng.below(m)])))
+    cases += delivery_cases(rng, m, max(2, nr // 3), thorough)
     return cases
 
 
 KEEP_QUICK_ADDED = {"inv": (1, 1), "tinv": (1, 1), "div": (1, 3), "diva": (1, 3), "tdiv": (1, 1), "pow": (1, 4), "rpn": (1, 1),
-                    "mul": (1, 4), "mula": (1, 4), "readv": (1, 1), "readt": (1, 1)}
+                    "mul": (1, 4), "mula": (1, 4), "readv": (1, 1), "readt": (1, 1),
+                    "reads": (1, 3), "readvs": (1, 2), "readts": (1, 2), "readfars": (1, 1), "writefar": (1, 2), "writes": (1, 2)}
 
 
 def generate(rng, tier):
@@ -794,6 +974,47 @@ def shrink(c):
         return out
     if c["op"] in ("readv", "readt"):
         put(dict(c, op="read", args=[norm(c)[1]]))
+        return out
+    if c["op"] in ("reads", "readfars", "readvs", "readts"):
+        # the printed token alone; byte by byte, without flags; a shorter numeral; at last the one-piece read
+        tok = str(args[1]) if c["op"] in ("reads", "readfars") else str(args[2 + int(args[1])])
+        if c["op"] != "reads":
+            put(dict(c, op="reads", args=[args[0] if c["op"] != "readfars" else "/1", tok]))
+            if c["op"] == "readfars":
+                put(dict(c, op="readfar", args=[int(tok), args[2]]))
+            return out
+        if ":" in args[0]:
+            lens, fl = args[0].split(":")
+            put(dict(c, args=[lens, tok]))
+            units = re.findall(r"w[0-9]|[a-z]", fl)
+            if len(units) > 1:
+                for u in units:       # one flag less
+                    put(dict(c, args=[lens + ":" + "".join(x for x in units if x != u), tok]))
+        if args[0].split(":")[0] != "/1":
+            put(dict(c, args=["/1" + args[0][len(args[0].split(":")[0]):], tok]))
+        if tok != str(int(tok)):
+            put(dict(c, args=[args[0], str(int(tok))]))
+        digits = tok.lstrip("-")
+        if len(digits) > 1:
+            put(dict(c, args=[args[0], tok[:-1]]))
+            put(dict(c, args=[args[0], tok[:len(tok) - len(digits)] + digits[1:]]))
+        if tok.startswith("-"):
+            put(dict(c, args=[args[0], digits]))
+        put(dict(c, op="read", args=[int(tok)]))
+        return out
+    if c["op"] == "writefar":
+        put(dict(c, op="new", args=[args[0]]))
+        for w in (args[0] % m, args[0] // 10):
+            if w != args[0] and abs(w) < abs(args[0]) or (w == args[0] % m and w != args[0]):
+                put(dict(c, args=[w, args[1]]))
+        return out
+    if c["op"] == "writes":
+        put(dict(c, op="new", args=[args[1]]))
+        if args[0] != "/1":
+            put(dict(c, args=["/1", args[1]]))
+        for w in (args[1] % m, args[1] // 10):
+            if w != args[1] and 0 <= w and (abs(w) < abs(args[1]) or args[1] < 0):
+                put(dict(c, args=[args[0], w]))
         return out
     if c["op"] == "tinv":
         put(dict(c, op="inv"))
@@ -975,7 +1196,7 @@ def extra(ctx, known):
     from _driver import Rng, run_impl, short_hash
     n = 30000 if ctx.tier == "quick" else 600000
     rng = Rng(ctx.seed * 1000003 + 17).fork("C06-search")
-    ops = BINOPS + [o + "a" for o in BINOPS] + ["eq", "new", "read", "neg", "inv", "pow", "rpn", "rpn"]
+    ops = BINOPS + [o + "a" for o in BINOPS] + ["eq", "new", "read", "neg", "inv", "pow", "rpn", "rpn", "reads", "writes"]
     mods = BIG + BIG + BIG2 + SMALL + SMALL2
     cases = []
     for _ in range(n):
@@ -995,6 +1216,21 @@ def extra(ctx, known):
             return rng.below(m)
         if op in ("new", "read", "neg", "inv"):
             c = case(m, op, operand())
+        elif op == "reads":
+            # a random numeral (sometimes zero-padded) delivered in random pieces / byte by byte / in 2s and 3s
+            tok = zpad(operand(), rng.choice([0, 0, 0, 1, 2, rng.range(3, 25)]))
+            style = rng.choice([0, 0, 1, 2, 3, 4])
+            eof = rng.chance(1, 6)
+            text, _sp = layout([tok], style, eof)
+            k = rng.below(4)
+            if k == 0:
+                h, cy = (), (rng.range(1, 4),)
+            else:
+                h, cy = cuts_to_head([rng.below(len(text) + 1) for _ in range(rng.range(1, 4))]), (() if k < 3 else (rng.range(1, 3),))
+            c = case(m, "reads", sched_str(h, cy, random_flags(rng).replace("e", "") + ("e" if eof else "") + ("w%d" % style if style else "")), tok)
+        elif op == "writes":
+            c = case(m, "writes", sched_str(cuts_to_head([rng.below(14) for _ in range(rng.below(3))]), (rng.range(1, 4),) if rng.chance(1, 2) else (),
+                                            random_flags(rng, sink=True)), operand())
         elif op == "pow":
             d = rng.choice([rng.range(0, U64_MAX), rng.range(0, 70), (1 << rng.range(0, 63)) - rng.below(2), U64_MAX - rng.below(3)])
             c = case(m, op, operand(), d)
@@ -1045,7 +1281,8 @@ def extra(ctx, known):
                          "search_profiles": list(PROFILES) + (["relchk (release, opt-level s, overflow-checks on)"] if relchk else []),
                          "relchk_profile": relchk_note,
                          "search_rule": "uniform choice of modulus (31, the seven original big moduli twice) and operation (14 "
-                                        "single operations, random multi-step expressions of 3..10 operations twice), operands: "
+                                        "single operations, random multi-step expressions of 3..10 operations twice, a read "
+                                        "whose text arrives in random pieces and a write into a sink taking random pieces), operands: "
                                         "boundary residues, width-boundary factors, uniform residues, uniform i64, multiples of M "
                                         "+-2; judged with Python integers",
                          "show_evaluations": len(shows) * nprof, "show_failures": bad_show,
@@ -1075,14 +1312,19 @@ MANIFEST = {
             "pairs; the two competition primes also through the aliases Mint998/Mint107), debug and release profile, single "
             "operations and multi-step expressions (chains of + - * / neg inv pow in operator and assigning form, the constants "
             "ZERO/ONE, == applied to computed values; Coq decides the last operation on the residues of its operands), values "
-            "read singly, through read_vec and tuples, inverses also on a second thread; the three renderings are compared byte "
+            "read singly, through read_vec and tuples, and the same reads with the text delivered in pieces (byte by byte, chunks, "
+            "one / two / three cuts inside a numeral, Interrupted errors, io::Chain, other blanks, end of input after the last "
+            "digit, zero-padded numerals, the 64 KiB mark) and the value written next to the end of the Writer's buffer or into a "
+            "short-write / interrupting sink - all required to give the observation of the plain read / new; inverses also on a "
+            "second thread; the three renderings are compared byte "
             "for byte, and the executor's internal checks (formatter flags, to_string, Writable of Vec/tuples, ZERO/ONE, "
             "value == new(inner())) turn into a failing rendering; Coq proves model = implementation and implementation |= spec on "
             "every case; an implementation-level random search judged with Python integers (single operations, random "
             "expressions, and Show::show against a transcription of its search loop) runs in addition.",
     "level_note": "Trusted: Coq kernel + vm_compute; the Rust executor and the Python case printer; the Rust integer semantics "
                   "written into the model (casts keep the low bits, arithmetic is checked, / and % truncate); Readable is new "
-                  "applied to the parsed i64 (the parser is C08); theorems are about the model, the correspondence is sampled on "
+                  "applied to the parsed i64 (the parser is C08; how the text reaches it - short reads, Interrupted errors, delimiters, "
+                  "zero padding - is sampled by the delivery cases, not modelled); theorems are about the model, the correspondence is sampled on "
                   "31 moduli; inside a multi-step expression the sub-expressions are evaluated by the Python printer and Coq "
                   "judges the last operation; Show::show is only compared with a Python transcription; spec_check additionally compares every text with the standard library's decimal printer, "
                   "which is evaluated per case (vm_compute), not covered by c06_model_implies_spec_strict.",
